@@ -30,6 +30,7 @@ type Frame struct {
 	results []Val // set at return while running defers
 	inDefer bool
 	skipEnter bool
+	mapIters []*MapIter
 	onRet   func(st *State, results []Val) // for frames pushed by the engine itself (deferred closures)
 }
 
@@ -284,10 +285,9 @@ func (e *Engine) step(st *State, stopDepth int) ([]*State, *Outcome) {
 	case *ssa.MakeSlice:
 		fr.regs[in] = e.makeSlice(st, fr, in)
 	case *ssa.MakeMap:
-		fr.regs[in] = &MapV{T: in.Type().Underlying().(*types.Map), Id: mk("Obj", e.C.Fresh("map", "Obj"))}
+		fr.regs[in] = e.newMap(st, in.Type().Underlying().(*types.Map), "map", true)
 	case *ssa.MapUpdate:
-		// map contents are not tracked (maps are only used as index sets in the code in reach)
-		st.notes = append(st.notes, "map update ignored (contents untracked) in "+fr.fn.Name())
+		e.mapUpdate(st, fr, in)
 	case *ssa.Lookup:
 		fr.regs[in] = e.lookup(st, fr, in)
 	case *ssa.Range:
@@ -875,6 +875,12 @@ func (e *Engine) freshVal(st *State, name string, t types.Type, depth int) Val {
 		o.GoT = t
 		return o
 	case *types.Array:
+		if isByteArrayType(t) && u.Len() >= 8 {
+			// fixed-size byte arrays (addresses, hashes): one opaque byte string of that length
+			a := &Term{S: "Arr", T: e.C.Fresh(name, SStr)}
+			st.assume(fmt.Sprintf("(= (slen %s) %s)", a.T, bvLit(uint64(u.Len()), 64)))
+			return a
+		}
 		av := &ArrayV{ElemT: u.Elem()}
 		if u.Len() > 64 {
 			o := mk("Obj", e.C.Fresh(name, "Obj"))
@@ -886,7 +892,7 @@ func (e *Engine) freshVal(st *State, name string, t types.Type, depth int) Val {
 		}
 		return av
 	case *types.Map:
-		return &MapV{T: u, Id: mk("Obj", e.C.Fresh(name, "Obj"))}
+		return e.newMap(st, u, name, false)
 	case *types.Signature:
 		o := mk("Obj", e.C.Fresh(name, "Obj"))
 		o.GoT = t
@@ -1345,6 +1351,9 @@ func (e *Engine) valEq(st *State, a, b Val) string {
 	if isNilConst(a) {
 		return e.isNilTerm(st, b)
 	}
+	if t, ok := e.arrayEq(st, a, b); ok {
+		return t
+	}
 	switch x := a.(type) {
 	case *Term:
 		switch y := b.(type) {
@@ -1759,23 +1768,25 @@ func (e *Engine) lookup(st *State, fr *Frame, in *ssa.Lookup) Val {
 		return mkBV(8, fmt.Sprintf("(str_at %s %s)", t.T, idx.(*Term).T), false)
 	}
 	if m, ok := x.(*MapV); ok {
-		v := e.freshVal(st, "mapval", m.T.Elem(), 2)
-		if in.CommaOk {
-			return TupleV{v, mkBool(e.C.Fresh("mapok", SBool))}
-		}
-		return v
+		return e.mapLookup(st, fr, in, m)
 	}
 	unsupported("Lookup on %s", valString(x))
 	return nil
 }
 
 func (e *Engine) rangeStart(st *State, fr *Frame, in *ssa.Range) Val {
-	unsupported("range over map/string in %s (needs a contract-level abstraction)", fr.fn.Name())
+	if m, ok := e.eval(st, fr, in.X).(*MapV); ok {
+		return e.rangeStartMap(st, fr, in, m)
+	}
+	unsupported("range over string in %s", fr.fn.Name())
 	return nil
 }
 
 func (e *Engine) rangeNext(st *State, fr *Frame, in *ssa.Next) ([]*State, *Outcome) {
-	unsupported("next over map/string in %s", fr.fn.Name())
+	if it, ok := e.eval(st, fr, in.Iter).(*MapIter); ok {
+		return e.rangeNextMap(st, fr, in, it)
+	}
+	unsupported("next over string in %s", fr.fn.Name())
 	return nil, nil
 }
 
@@ -1832,6 +1843,13 @@ func (e *Engine) loadGlobal(st *State, name string, t types.Type) Val {
 			return &PtrV{Opaque: o, T: t}
 		}
 		return o
+	}
+	if isByteArrayType(t) {
+		// a package-level byte array (a hash constant computed at init): an unknown but fixed value (A-GLOBALS)
+		n := "|g_" + sanitize(name) + "|"
+		e.C.DeclareFun(n, nil, SStr)
+		st.assume(fmt.Sprintf("(= (slen %s) %s)", n, bvLit(uint64(t.Underlying().(*types.Array).Len()), 64)))
+		return &Term{S: "Arr", T: n}
 	}
 	unsupported("load of global %s : %s", name, t)
 	return nil
@@ -1895,6 +1913,14 @@ func (e *Engine) globalInit(st *State, name string, t types.Type) (Val, bool) {
 			case *ssa.Convert:
 				if c, ok := v.X.(*ssa.Const); ok && isByteSlice(v.Type()) && c.Value != nil {
 					return mk(SBytes, "(mkB false "+e.C.StrLit(constant.StringVal(c.Value))+")"), true
+				}
+			case *ssa.Call:
+				// var x = big.NewInt(<constant>)
+				if fn, ok := v.Call.Value.(*ssa.Function); ok && FuncKey(fn) == "math/big::NewInt" {
+					if c, ok := v.Call.Args[0].(*ssa.Const); ok && c.Value != nil {
+						e.C.DeclareFun("big_of", []Sort{BV(64)}, "Obj")
+						return &PtrV{Opaque: mk("Obj", "(big_of "+e.constVal(c).(*Term).T+")"), T: t}, true
+					}
 				}
 			}
 		}
